@@ -8,7 +8,7 @@
      Variant = "fixed"       the transcription of the proposed repair   (must meet the reference)
    and every result is judged by the reference relation StepCause of FilesFS. *)
 EXTENDS FilesFS, TLC, Json, SequencesExt
-CONSTANTS Variant, Large, MaxFiles, MaxOps
+CONSTANTS Variant, Large, MaxFiles, MaxOps, DeepOps
 
 nA == <<97>>                      \* a        (empty file)
 nB == <<98>>                      \* b
@@ -78,11 +78,24 @@ ImpliedDirsExist == \A i \in DOMAIN F : \A k \in 1..Len(F[i].n) :
                        F[i].n[k] = Slash => RefOpen(F, Sub(F[i].n, 1, k - 1)).kind = "dir"
 FilesOpenAsFiles == \A i \in DOMAIN F : RefOpen(F, F[i].n).kind = "file"
 
-(* case export: every tree x probe x operation sequence of length <= MaxOps (only in the "ref" run) *)
-CaseSet == UNION {UNION {{[files |-> T, name |-> q, ops |-> s] :
-                            s \in (IF RefOpen(T, q).kind = "none" THEN {<<>>} ELSE SeqsUpTo(OpsFor(RefOpen(T, q).kind), MaxOps))}
-                         : q \in Probes} : T \in Trees}
-Cases == LET C == SetToSeq(CaseSet) IN
-         [i \in 1..Len(C) |-> [id |-> i, files |-> C[i].files, name |-> C[i].name, ops |-> C[i].ops]]
+(* case export (only in the "ref" run): one line per tree x probe name, carrying every operation sequence to
+   run on a fresh handle of that name: all sequences of length <= MaxOps over the full operation alphabet, plus
+   the sequences of length MaxOps+1..DeepOps over the paging alphabet (ReadDir(-1|1|2) / Read(0|1|2)).
+   An operation is written as one integer: 0 stat, 1 close, 10+n read(n), 20+n readdir(n). *)
+Code(o) == CASE o.op = "stat" -> 0 [] o.op = "close" -> 1 [] o.op = "read" -> 10 + o.n [] o.op = "readdir" -> 20 + o.n
+PagingOps(kind) == IF kind = "file" THEN {Op("read", 0), Op("read", 1), Op("read", 2)}
+                   ELSE {Op("readdir", -1), Op("readdir", 1), Op("readdir", 2)}
+SeqSetOf(kind) == SeqsUpTo(OpsFor(kind), MaxOps) \cup UNION {[1..k -> PagingOps(kind)] : k \in (MaxOps + 1)..DeepOps}
+Coded(S) == AsTuple([i \in 1..Len(S) |-> AsTuple([j \in 1..Len(S[i]) |-> Code(S[i][j])])])
+FileOpSeqs == Coded(SetToSeq(SeqSetOf("file")))
+DirOpSeqs == Coded(SetToSeq(SeqSetOf("dir")))
+OpSeqsOf(kind) == IF kind = "file" THEN FileOpSeqs ELSE IF kind = "dir" THEN DirOpSeqs ELSE << <<>> >>
+TreeSeq == SetToSeq(Trees)
+ProbeSeq == SetToSeq(Probes)
+NP == Len(ProbeSeq)
+Cases == [i \in 1..(Len(TreeSeq) * NP) |->
+            LET T == TreeSeq[((i - 1) \div NP) + 1]
+                q == ProbeSeq[((i - 1) % NP) + 1] IN
+            [id |-> i, files |-> T, name |-> q, seqs |-> OpSeqsOf(RefOpen(T, q).kind)]]
 ASSUME Variant = "ref" => ndJsonSerialize("cases.ndjson", Cases)
 =============================================================================
